@@ -1,5 +1,5 @@
 #!/bin/sh
-# Offline setup: pre-build the op-server harness against /repo's working tree (feature "verif").
+# Offline setup: pre-build the harnesses against /repo's working tree (feature "verif").
 set -e
 cd "$(dirname "$0")"
 export CARGO_NET_OFFLINE=true
@@ -8,4 +8,8 @@ import sys
 sys.path.insert(0, '.')
 from vlib import common
 print(common.build('wsrv', 'debug'))
+try:
+    print(common.build('wsrv', 'debug', flavor='asan'))
+except common.BuildError as e:
+    print('ASan build failed (C11 runs without its ASan pass):', e)
 PY
